@@ -164,11 +164,14 @@ pub fn ref_bounds_unicode_intervals(line: &str, vis: &Vis) -> Vec<(usize, usize)
     out
 }
 
-/// Hyphen splitter: directly after each '-' that has an alphanumeric character on both sides.
+/// Hyphen splitter: directly after each '-' of the text (a '-' inside an escape sequence, e.g. in
+/// the URL of a hyperlink, is not text) that has an alphanumeric character on both sides.
 pub fn ref_hyphen_points(word: &str) -> Vec<usize> {
+    let vis = ref_visible(word);
     let cs: Vec<(usize, char)> = word.char_indices().collect();
     (1..cs.len().saturating_sub(1))
         .filter(|&k| cs[k].1 == '-' && cs[k - 1].1.is_alphanumeric() && cs[k + 1].1.is_alphanumeric())
+        .filter(|&k| vis.as_ref().map(|v| !v.inside_seq(cs[k].0)).unwrap_or(true))
         .map(|k| cs[k].0 + 1)
         .collect()
 }
